@@ -582,6 +582,40 @@ pub fn oracle_c07(rng: &mut Rng, tier: &str) -> Report {
             rep.sample(t);
         }
     }
+    // one frame line that expands to n frames (an n-entry inline group), with the expected output
+    // constructed here, independently of crate and model: no cap, no truncation, file order
+    for n in if thorough(tier) { vec![4097usize, 70_000] } else { vec![4097usize, 20_000] } {
+        let text = crate::gens::threshold_mapping(n);
+        let ms: &'static [u8] = Box::leak(text.into_boxed_slice());
+        let mapper = proto::cur::mapper(ms, false);
+        let cbytes = proto::aligned_static(&proto::cur::write_cache(ms));
+        let Ok(cache) = ProguardCache::parse(cbytes) else {
+            rep.fail("own output does not parse", vec![format!("# threshold mapping {}", n)], String::new());
+            continue;
+        };
+        let input = "big: boom\n    at big.b(F.java:7)\nCaused by: small: x\n\tat big.b(G.java:5)\n    at big.b(G.java:4)\n";
+        let mut want = String::from("o.Big: boom\n");
+        for i in 0..n {
+            want.push_str(&format!("    at o.Big.inl{}(F.java:{})\n", i, i));
+        }
+        want.push_str("Caused by: o.Small: x\n");
+        for i in 0..n {
+            want.push_str(&format!("    at o.Big.inl{}(G.java:{})\n", i, i));
+        }
+        want.push_str("    at big.b(G.java:4)\n");
+        for (who, got) in [("mapper", mapper.remap_stacktrace(input)), ("cache", cache.remap_stacktrace(input))] {
+            rep.checks += 1;
+            match got {
+                Ok(g) if g == want => rep.nontrivial += 1,
+                Ok(g) => rep.fail(
+                    &format!("{}: a frame line resolving to {} frames is not rendered as exactly those frames", who, n),
+                    vec![format!("# mapping: class big with an inline group of {} entries `5:9:void inl<i>():<i> -> b`", n), format!("TXT {}", hxs(input))],
+                    format!("expected {} lines, got {}", want.lines().count(), g.lines().count()),
+                ),
+                Err(_) => rep.fail(&format!("{}: remap_stacktrace failed", who), vec![format!("TXT {}", hxs(input))], String::new()),
+            }
+        }
+    }
     rep
 }
 
@@ -1057,7 +1091,8 @@ fn c14_mappings(seed: u64, tier: &str) -> Vec<Vec<u8>> {
         let mut t = String::with_capacity(n * 30);
         t.push_str("o.H -> h:\n");
         for i in 0..n {
-            t.push_str(&format!("    void m{}(p{}) -> a\n", i, i % 1000));
+            // (i % 1024: records 65536 apart share name *and* parameters — positions kept in 16 bits tie)
+            t.push_str(&format!("    void m{}(p{}) -> a\n", i, i % 1024));
         }
         v.push(t.into_bytes());
     }
